@@ -112,14 +112,25 @@ def _guarded(fn, cell):
         signal.signal(signal.SIGALRM, old)
 
 
+_SENT = [set(), set()]
+
+
+def _census_delta():
+    d = (S.FOLDED - _SENT[0], S.SUMMARISED - _SENT[1])
+    _SENT[0] |= d[0]
+    _SENT[1] |= d[1]
+    return d
+
+
 def _worker(i):
     fn, cells = _WORK["fn"], _WORK["cells"]
     try:
-        return i, _guarded(fn, cells[i])
+        r = _guarded(fn, cells[i])
+        return i, r, _census_delta()
     except Exception as e:  # checker bug: surfaces as analysis error in the parent
         import traceback
 
-        return i, ("__error__", traceback.format_exc())
+        return i, ("__error__", traceback.format_exc()), (set(), set())
 
 
 def run_cells(fn, cells, jobs=None):
@@ -138,7 +149,9 @@ def run_cells(fn, cells, jobs=None):
     ctx = mp.get_context("fork")
     with ctx.Pool(jobs) as pool:
         out = [None] * len(cells)
-        for i, r in pool.imap_unordered(_worker, range(len(cells)), chunksize=2):
+        for i, r, census in pool.imap_unordered(_worker, range(len(cells)), chunksize=2):
+            S.FOLDED.update(census[0])
+            S.SUMMARISED.update(census[1])
             if isinstance(r, tuple) and r and r[0] == "__error__":
                 pool.terminate()
                 raise model.AnalysisError("analysis job failed:\n" + r[1])
